@@ -12,12 +12,14 @@ import (
 	"runtime"
 	"sort"
 	"strings"
+	"sync"
 	"time"
 
 	"github.com/tigerwill90/fox"
 
 	"verif/ref"
 	"verif/rt"
+	"verif/stats"
 )
 
 // Op is one step of a history.
@@ -201,30 +203,45 @@ var ErrDeadlock = errors.New("writer lock not released")
 // guarded runs fn in its own goroutine. If it does not finish, the goroutine
 // dump decides: blocked in sync.(*Mutex).Lock below a fox frame means the writer
 // lock was leaked (a violation); anything else is reported as inconclusive.
-func guarded(fn func()) (err error, inconclusive bool) { return Guarded(fn, 20*time.Second) }
+func guarded(fn func()) (err error, inconclusive bool) { return Guarded(fn, 60*time.Second) }
 
 // Guarded is the exported form of the writer-lock watchdog (see guarded).
 func Guarded(fn func(), wait time.Duration) (err error, inconclusive bool) {
+	return GuardedStart(func(func()) { fn() }, wait)
+}
+
+// GuardedStart runs fn in its own goroutine; fn calls started() once it owns the writer lock (for example at the
+// top of an Updates function). The watchdog only bounds the time until started() or completion: what the
+// function does after it has the lock may take as long as it needs.
+func GuardedStart(fn func(started func()), wait time.Duration) (err error, inconclusive bool) {
 	done := make(chan any, 1)
+	begun := make(chan struct{})
+	var once sync.Once
 	go func() {
 		defer func() { done <- recover() }()
-		fn()
+		fn(func() { once.Do(func() { close(begun) }) })
 	}()
-	select {
-	case p := <-done:
+	finish := func(p any) (error, bool) {
 		if p != nil {
 			panic(p)
 		}
 		return nil, false
+	}
+	select {
+	case p := <-done:
+		return finish(p)
+	case <-begun:
+		return finish(<-done)
 	case <-time.After(wait):
 	}
 	buf := make([]byte, 1<<20)
 	buf = buf[:runtime.Stack(buf, true)]
 	for _, g := range strings.Split(string(buf), "\n\n") {
-		if strings.Contains(g, "sync.(*Mutex).Lock") && strings.Contains(g, "github.com/tigerwill90/fox.(*Router)") && strings.Contains(g, "hist.Guarded") {
+		if strings.Contains(g, "sync.(*Mutex).Lock") && strings.Contains(g, "github.com/tigerwill90/fox.(*Router)") && strings.Contains(g, "hist.GuardedStart") {
 			return fmt.Errorf("%w: a write is blocked in sync.(*Mutex).Lock:\n%s", ErrDeadlock, g), false
 		}
 	}
+	stats.MarkInconclusive("watchdog expired without the writer lock being the cause")
 	return fmt.Errorf("write did not finish within %v but is not blocked on the writer lock", wait), true
 }
 
@@ -237,6 +254,14 @@ func (e *Engine) write(fn func()) error {
 		return nil
 	}
 	err, inc := guarded(fn)
+	if inc {
+		Inconclusive = true
+	}
+	return err
+}
+
+func (e *Engine) writeStart(fn func(started func())) error {
+	err, inc := GuardedStart(fn, 60*time.Second)
 	if inc {
 		Inconclusive = true
 	}
@@ -543,9 +568,10 @@ func (e *Engine) applyUpdates(op Op) error {
 	var recovered any
 	sentinel := errors.New("injected error")
 	pv := &injected{e.Steps}
-	if werr := e.write(func() {
+	if werr := e.writeStart(func(started func()) {
 		defer func() { recovered = recover() }()
 		retErr = e.F.Updates(func(txn *fox.Txn) error {
+			started() // the transaction owns the writer lock from here on
 			e.Txn, e.TxnM = txn, pre.clone()
 			for _, b := range op.Body {
 				if inner = e.Apply(b); inner != nil {
